@@ -447,6 +447,28 @@ fn validate(ctx: &Context<impl Channel>) -> Result<(), Error> {
             return Err(MpcError::InstWithoutInput(w).into());
         }
     }
+    // The engine sizes its buffers and preprocessing batches by the `and_ops` counter and reads the
+    // shares and labels of the output registers without further checks, so the counter has to match
+    // the instructions and every output register has to be written by an instruction.
+    let num_and_insts = circ
+        .insts
+        .iter()
+        .filter(|inst| matches!(inst.op, Op::And(_)))
+        .count();
+    if num_and_insts != circ.and_ops {
+        return Err(MpcError::MissingAndShareForInst(circ.insts.len()).into());
+    }
+    let mut written = vec![false; circ.max_reg_count];
+    for inst in &circ.insts {
+        if let Some(w) = written.get_mut(inst.out.0 as usize) {
+            *w = true;
+        }
+    }
+    for out in &circ.output_regs {
+        if !written.get(out.0 as usize).copied().unwrap_or(false) {
+            return Err(MpcError::MissingOutputShareForOutReg(*out).into());
+        }
+    }
     for (k, output_party) in p_out.iter().enumerate() {
         if *output_party >= p_max {
             return Err(Error::InvalidOutputParty(*output_party));
